@@ -27,29 +27,32 @@ def run(rep):
         if smf is not None:
             rep.add_tlc("C17.ArrayStateMachine", smf.result())
     rep.add_tlc("C17.Enum+Laws", res)
-    seen, calls, scripts, keys = set(), [], [], []
+    seen, calls, scripts, keys, binds = set(), [], [], [], []
     import hashlib
     for c in res.records:
         k = hashlib.md5(key(c).encode()).digest()
         if k in seen:
             continue
         seen.add(k)
-        (calls if c["ty"] == "call" else keys if c["ty"] == "key" else scripts).append(c)
+        (calls if c["ty"] == "call" else keys if c["ty"] == "key" else binds if c["ty"] == "bind" else scripts).append(c)
     res.records, res.stdout, seen = [], "", None          # the enumeration output is large: free it
     nrw = sum(1 for c in scripts if c.get("fam") == "rw")
-    if (parts == "all" and (len(calls) < 5000 or len(scripts) - nrw < 500)) or (parts != "key" and nrw < 500) \
-            or (parts in ("all", "key") and len(keys) < 1000):
-        raise Machinery("enumeration produced only %d calls, %d scripts, %d key scripts" % (len(calls), len(scripts), len(keys)))
+    if (parts == "all" and (len(calls) < 5000 or len(scripts) - nrw < 500)) or (parts not in ("key", "bind") and nrw < 500) \
+            or (parts in ("all", "key") and len(keys) < 1000) or (parts in ("all", "bind") and len(binds) < 3000):
+        raise Machinery("enumeration produced only %d calls, %d scripts, %d key scripts, %d lookup-time scripts"
+                        % (len(calls), len(scripts), len(keys), len(binds)))
     rng = random.Random(rep.seed)
     allc = []
-    for c in calls + scripts + keys:
+    for c in calls + scripts + keys + binds:
         c["id"] = len(allc)
         c["intrep"] = True                       # integer-valued numbers as the engine's literals hold them
         allc.append(c)
     # the same cases with integer-valued numbers held as Python floats (representation mix): all plain calls, a sample of the rest
-    for c in calls + scripts + keys:
+    for c in calls + scripts + keys + binds:
         if c.get("fam") == "rw":
             p = 0.25 if quick else 0.1               # a family about histories and aliasing, not about number representations
+        elif c["ty"] == "bind":
+            p = 0.1                                  # a family about the order of lookup, change and call
         elif c["ty"] == "key":
             p = 1.0                                  # a number key held as a Python float is a key kind of its own
         else:
@@ -79,6 +82,11 @@ def run(rep):
                                 "length 0..3 (6 thorough); elements, own named properties and reads by name observed after every event "
                                 "(TLC-enumerated, KeyGridLaw)",
                        "cases": len(keys), "complete": True})
+    rep.spaces.append({"space": "method looked up, receiver changed, method called: construction form (change inside the argument list; method value kept "
+                                "and called by call / apply / detached) x intervening change (none; in place: push pop shift unshift reverse sort "
+                                "element write; splice; length shortened / extended; two in a row) x every method x receiver length 0, 1, 4 "
+                                "(TLC-enumerated, BindGridLaw)",
+                       "cases": len(binds), "complete": True})
     rep.spaces.append({"space": "seeded random histories (arrays: <= 20 calls on three shared arrays; typed arrays: <= 20 events on two buffers, a quarter of them with join / toString between the writes)",
                        "cases": len(hist) + len(tah), "complete": False})
     # 2./3. replay into the engine and judge in TLC, batch by batch (bounded memory)
@@ -120,6 +128,8 @@ def process(rep, batch, shards):
     # a wall-clock watchdog hit on a loaded machine is not an observation: run those cases once more, alone
     def hung(r):
         obs = r["obs"] if isinstance(r["obs"], list) else [r["obs"]]
+        if len(obs) == 1 and "fin" in obs[0]:                       # family B: the intervening calls and the call
+            obs = obs[0]["pre"] + [obs[0]["fin"]]
         return any(o["out"]["o"] == "hang" and "wall" in o["out"].get("msg", "") for o in obs)
     byid = {c["id"]: c for c in batch}
     again = [r["id"] for r in results if hung(r)]
@@ -135,6 +145,9 @@ def process(rep, batch, shards):
         if c["ty"] == "call":
             crecs.append({"id": c["id"], "ty": "call", "store": c["store"], "m": c["m"], "r": c["r"], "a": c["a"], "cb": c["cb"],
                           "obs": r["obs"]})
+        elif c["ty"] == "bind":
+            crecs.append({"id": c["id"], "ty": "bind", "store": c["store"], "r": c["r"], "pre": c["pre"], "m": c["m"], "a": c["a"], "cb": c["cb"],
+                          "form": c["form"], "obs": r["obs"]})
         elif c["ty"] == "key":
             crecs.append({"id": c["id"], "ty": "key", "store": c["store"], "r": c["r"], "probes": c["probes"],
                           "evs": [dict(ev, obs=ob) for ev, ob in zip(c["evs"], r["obs"])]})
@@ -152,7 +165,7 @@ def process(rep, batch, shards):
     tverd, st2, tr2, wall2 = tlc.judge(rep.pid, "C17", trecs, TRACE_CFG, tag="judge_traces", shards=shards)
     rep.add_judge(len(trecs), st2, tr2)
     rep.notes["judge_wall_s"] = [round(rep.notes["judge_wall_s"][0] + wall, 1), round(rep.notes["judge_wall_s"][1] + wall2, 1)]
-    rep.evaluations += sum(len(t["evs"]) if t["ty"] == "key" else 1 for t in crecs) + sum(len(t["evs"]) for t in trecs)
+    rep.evaluations += sum(len(t["evs"]) if t["ty"] == "key" else 1 + len(t["pre"]) if t["ty"] == "bind" else 1 for t in crecs) + sum(len(t["evs"]) for t in trecs)
     got = {v["id"]: v for v in verdicts + tverd}
     if len(got) != len(batch):
         raise Machinery("judge returned %d verdicts for %d records" % (len(got), len(batch)))
@@ -178,6 +191,9 @@ def process(rep, batch, shards):
 def actual_of(c, rec, v):
     if c["ty"] == "call":
         return rec["obs"]
+    if c["ty"] == "bind":
+        at = (v.get("at") or 1) - 1
+        return rec["obs"]["pre"][at] if at < len(c["pre"]) else rec["obs"]["fin"]
     at = (v.get("at") or 1) - 1
     evs = rec["evs"]
     return evs[at]["obs"] if 0 <= at < len(evs) else None
@@ -222,6 +238,15 @@ def show_case(c):
         recv = "[" + ", ".join(show_val(e) for e in c["store"][c["r"] - 1]) + "]"
         return "a = " + recv + "; " + "; ".join(("a[%s]" % show_val(e["k"])) + (" = " + show_val(e["v"]) if e["op"] == "set" else "")
                                                  for e in c["evs"]) + tag
+    if c["ty"] == "bind":
+        recv = "[" + ", ".join(show_val(e) for e in c["store"][c["r"] - 1]) + "]"
+        pre = [show_call([], dict(e, r=c["r"])).replace("#%d" % c["r"], "a") for e in c["pre"]]
+        args = [p for p in ([show_cb(c["cb"])] if c["cb"]["kind"] != "na" else []) + [show_val(a) for a in c["a"]] if p]
+        if c["form"] == "inarg":
+            return "a = %s; a.%s(%s)%s" % (recv, c["m"], ", ".join(["(" + ", ".join(pre + (args[:1] or ["undefined"])) + ")"] + args[1:]) if pre
+                                           else ", ".join(args), tag)
+        fin = {"call": "f.call(%s)" % ", ".join(["a"] + args), "apply": "f.apply(a, [%s])" % ", ".join(args), "detached": "f(%s)" % ", ".join(args)}
+        return "a = %s; f = a.%s; %s%s%s" % (recv, c["m"], "".join(p + "; " for p in pre), fin[c["form"]], tag)
     if c["ty"] == "hist":
         return "history " + "; ".join("#%d.%s" % (e["r"], e["m"]) for e in c["evs"]) + " on " + json.dumps([[show_val(x) for x in a] for a in c["store"]])
     out = []
